@@ -112,6 +112,8 @@ unsafe impl GlobalAlloc for VerifAlloc {
         h.write(FREED);
         if !storage {
             let _ = T_LIVE.try_with(|l| l.set(l.get().saturating_sub(size as u64)));
+            // poison: a read through a dangling reference yields 0xDD bytes deterministically
+            std::ptr::write_bytes(ptr, 0xDD, size);
         }
         let hdr = hdr_for(align);
         let under = Layout::from_size_align_unchecked(size + hdr + 8, align.max(16));
